@@ -8,6 +8,8 @@ from harness.common import Run
 from harness.props import c06_api as A
 from harness.props import c06_pipeline as P
 from harness.props import c06_saem as S
+from harness.props import c06_src as SRC
+from harness.translate import c06_weighted
 
 META = dict(
     technique="Coq theorems (all atoms incl. NaN/inf, all shapes, all sets of summed axes, all padding amounts, all trees of API "
@@ -44,7 +46,27 @@ OBLIGATIONS = [
     "C06_observed_closed", "C06_attach", "C06_attach_padding", "C06_counts", "C06_counts_ignore_values",
     "C06_model_zero_on_padding", "C06_model_ignores_masked_times", "C06_noise_observed_only", "C06_noise_ingredients_observed_only", "C06_noise_padding",
     "C06_noise_observed_only_after_burn_in", "C06_saem_statistics_carry_weights", "C06_noise_saem_no_memory",
+    # source-level tie (T1): the function bodies regenerated from the current source (coq/gen/GenC06.v)
+    "C06_src_apply_operation", "C06_src_readings", "C06_src_maps", "C06_src_utils", "C06_src_signatures",
+    "C06_src_tree_ignores_masked", "C06_src_observed_closed", "C06_src_std_guard", "C06_src_std_sqrt_defined",
+    "C06_src_std_nan_not_refused",
 ]
+
+
+def translate(run: Run) -> bool:
+    """T1: regenerate coq/gen/GenC06.v (every function body of the weighted-tensor layer + compute_std_from_variance as a
+    source-level program) from $VERIF_REPO; fail closed."""
+    try:
+        ok = c06_weighted.translate(run)
+    except Exception as e:  # noqa - an AST shape the translator has never met must not stop the search for a failing input
+        import traceback
+        run.broken("translate:GenC06", f"translator crashed: {type(e).__name__}: {e}\n{traceback.format_exc()[-800:]}", kind="broken-translation")
+        ok = False
+    if not ok:
+        # never leave the programs of an earlier run behind: the proofs must not be checked against a stale translation
+        run.gen("GenC06", "(* the translation of this run FAILED (harness/translate/c06_weighted.py): no program *)\n")
+    return ok
+
 
 HDR = ("From Coq Require Import List NArith ZArith QArith Bool.\nFrom Leaspy Require Import Base.Atoms Masked.Weighted.\n"
        "Import ListNotations.\nLocal Close Scope Q_scope.\n")
@@ -91,6 +113,7 @@ def api_tie(run: Run, n: int):
 
 def main(run: Run):
     thorough = run.tier == "thorough"
+    translate(run)
     run.prove("C06", OBLIGATIONS)
     run.rule = ("(1) random trees (depth 0-3) over the real WeightedTensor API: constructors incl. refused ones, all arithmetic/comparison "
                 "dunders incl. reflected ones, neg/abs/pow, map and the unary-operator factory with fill values, index_put, view/"
@@ -119,7 +142,8 @@ def main(run: Run):
     run.trusted.append("hand-written model coq/theories/Masked/{Weighted,Pipeline}.v tied by exact differential execution (harness/props/c06_api.py; noise rules and put_data_variables: harness/props/c06_pipeline.py; memory phase Masked/Saem.v: harness/props/c06_saem.py)")
     api_tie(run, 50000 if thorough else 3000)
     # each stage on its own: a tie that no longer runs must not stop the search for a failing input on the real pipeline
-    for stage, fn in (("noise-tie", lambda: P.noise_tie(run, 4000 if thorough else 400)),
+    for stage, fn in (("std-tie", lambda: SRC.std_tie(run, 6000 if thorough else 600)),
+                      ("noise-tie", lambda: P.noise_tie(run, 4000 if thorough else 400)),
                       ("saem-tie", lambda: S.saem_tie(run, 3000 if thorough else 300)),
                       ("put-data-tie", lambda: P.put_data_tie(run, 400 if thorough else 60)),
                       ("saem-oracle", lambda: S.saem_oracle(run, thorough)),
@@ -147,6 +171,13 @@ def replay(run: Run, path: str):
         bad = run.vm_bad_indices("replay", HDR, "list lit * expr * query * outcome", [A.coq_case(c, res)], "check_case") if res[0] != "X" else [0]
         print("REPLAY", "FAILS (model disagrees)" if bad else "passes")
         return 1 if bad else 0
+    if sc == "std":
+        SRC.std_tie(run, 0, only=[inp["case"]])
+        for f in run._fails:
+            print("FAIL", f["signature"], f["what"], "observed:", f.get("observed"))
+        fails = bool(run._fails or run._known_hit or run._broken)
+        print("REPLAY", "FAILS" if fails else "passes")
+        return 1 if fails else 0
     if sc in ("witness", "noise-tie"):
         v, m, mod = P.noise_case_tensors(inp)
         for diagonal in ([inp["rule"] == "diagonal"] if "rule" in inp else [False, True]):
